@@ -464,6 +464,18 @@ def inconsistent (ms : List MatrixData) : Bool :=
     (ms.any (fun m => m.timestamp.isSome) && ms.any (fun m => m.timestamp.isNone)) ||
     ms.any (fun m => ((supplied ms m.index).filter (fun m' => m'.timestamp == m.timestamp)).length != 1)
 
+/-- SPEC: a matrix set a provider must be built from: `n × n` matrices throughout, and either no timestamps with the
+    profile indices `0 .. k-1` once each, or timestamps everywhere with at least two matrices per profile and no two
+    of them at the same `u64` key -/
+def wellFormed (ms : List MatrixData) (n : Nat) : Bool :=
+  !ms.isEmpty &&
+  ms.all (fun m => m.durations.length == n * n && m.distances.length == n * n) &&
+  ((ms.all (fun m => m.timestamp.isNone) &&
+      (List.range ms.length).all (fun i => (supplied ms i).length == 1)) ||
+   (ms.all (fun m => m.timestamp.isSome) &&
+      ms.all (fun m => (supplied ms m.index).length != 1 &&
+        ((supplied ms m.index).filter (fun x => x.key == m.key)).length == 1)))
+
 /-- SPEC for the reader: the matrices **named** `name` (for a set of unnamed matrices: the one at the position
     of the profile in `fleet.profiles`), as matrix data with unreachable entries replaced by −1 -/
 def unreachableApplied (m : ApiMatrix) : List Int × List Int :=
